@@ -57,7 +57,7 @@ def judge(run: Run, cases: list[dict], res: list[dict], prop: str = "C01") -> No
         if r["impl_hang"]:
             run.violation({"src": c["src"], "mode": c["mode"], "layer": c["layer"]}, "implementation_hangs_on_valid_python")
             continue
-        traces.append({"id": i, "aok": r["impl_ok"], "bok": True, "a": r.get("a", []), "b": r.get("b", []), "pos": True})
+        traces.append({"id": i, "aok": r["impl_ok"], "bok": True, "a": r.get("a", []), "b": r.get("b", []), "pos": True, "want": [], "spans": []})
     verdicts = validate_traces(run, "AstEq", traces, name="asteq")
     for i, (clause, k) in sorted(verdicts.items()):
         if clause == "ok":
